@@ -445,6 +445,22 @@ func c09StateDefault(c *Ctx, R string) {
 			as := s.Inner.(*ast.AssignStmt)
 			fromDefault := objOf(info, as.Rhs[0]) == def
 			root, _, _ := accessPath(info, as.Lhs[0])
+			if root == nil {
+				// dst[i].State: the list variable
+				for cur := ast.Unparen(as.Lhs[0]); cur != nil; {
+					switch x := cur.(type) {
+					case *ast.SelectorExpr:
+						cur = ast.Unparen(x.X)
+					case *ast.IndexExpr:
+						cur = ast.Unparen(x.X)
+					case *ast.Ident:
+						root = info.Uses[x]
+						cur = nil
+					default:
+						cur = nil
+					}
+				}
+			}
 			dom := fl.Dominated(s.Site, nil, func(a Atom) bool {
 				be, ok := ast.Unparen(a.E).(*ast.BinaryExpr)
 				if !ok || a.Tag != nil {
@@ -456,6 +472,17 @@ func c09StateDefault(c *Ctx, R string) {
 				}
 				r, _, _ := accessPath(info, call.Args[0])
 				k, isC := constInt(info, be.Y)
+				if r != root && r != nil {
+					// the element variable of a loop over the list the store goes into stands for that element
+					ast.Inspect(drm.Decl.Body, func(nd ast.Node) bool {
+						if rs, isRange := nd.(*ast.RangeStmt); isRange && rs.Value != nil && objOf(info, rs.Value) == r && rs.Pos() <= as.Pos() && as.End() <= rs.End() {
+							if rr, _, _ := accessPath(info, rs.X); rr == root {
+								r = root
+							}
+						}
+						return true
+					})
+				}
 				if r != root || !isC || k != 0 {
 					return false
 				}
